@@ -363,6 +363,43 @@ def rule_parser(ctx, mod, sh, mean, model):
         ok = bool(paths) and all(p.kind == "raise" and p.value == "NoteFormatError" for p in paths)
         ctx.check(ok, R, "bad-root[%s]" % label, fi.where(), "from_shorthand(<%s>)" % label,
                   "a malformed root gives %s instead of NoteFormatError" % [(p.kind, p.value) for p in paths])
+    # (i) degenerate and over-long strings: rejected with one of the two format errors, never another exception,
+    #     and never accepted with a part of the text ignored
+    run = nd.acc_run("R")
+    for label, arg in (("empty", ""), ("empty-left-partner", "|C"), ("empty-right-partner", AbsStr(["C", run, "m7|"])),
+                       ("empty-bass", AbsStr(["C", run, "/"])), ("double-slash", "C//E"), ("slash-bar", "C/|E"),
+                       ("list-with-empty", ["Am", ""]), ("garbage-after-bass", AbsStr(["C", run, "/E/@@@"])),
+                       ("garbage-after-bass-2", "Cm7/G/zzz"), ("trailing-slash-after-bass", "C/E/")):
+        try:
+            paths = _eval_from_shorthand(ctx, fi, model, lambda arg=arg: [list(arg) if isinstance(arg, list) else arg])
+        except (CannotDecide, nd.Shape) as e:
+            raise AnalysisError("from_shorthand(<%s>): %s" % (label, e))
+        ok = bool(paths) and all(p.kind == "raise" and p.value in ("FormatError", "NoteFormatError") for p in paths)
+        ctx.check(ok, R, "degenerate[%s]" % label, fi.where(), "from_shorthand(<%s>)" % label,
+                  "gives %s; a string that is no chord shorthand is rejected with FormatError / NoteFormatError" % sorted({(p.kind, short(repr(p.value), 50)) for p in paths}))
+    # (j) combinations the statement names: NC as a polychord partner, a slash chord as the left partner
+    combos = [("C|NC", "C", [""], None, None), ("C/E|G7", "G", ["7"], ("E", ""), "C"), ("Dm7/A|C", "C", [""], ("A", "m7"), "D")]
+    for text, Ly, ky_, bass_and_kx, Lx in combos:
+        try:
+            paths = _eval_from_shorthand(ctx, fi, model, lambda text=text: [text])
+        except (CannotDecide, nd.Shape) as e:
+            raise AnalysisError("from_shorthand(%r): %s" % (text, e))
+        ok, why = len(paths) == 1 and paths[0].kind == "return" and isinstance(paths[0].value, list), "outcome %s" % [(p.kind, short(repr(p.value), 60)) for p in paths]
+        if ok:
+            it_ = paths[0].interp
+            if text == "C|NC":
+                exp = list(want_for(""))
+            else:
+                bass, kx = bass_and_kx
+                dl = lambda a, b: ((LETTERS.index(a) - LETTERS.index(b)) % 7, (NAT[a] - NAT[b]) % 12)
+                exp = list(want_for(ky_[0]))
+                for n_ in [dl(bass, Ly)] + [((l + dl(Lx, Ly)[0]) % 7, (st + dl(Lx, Ly)[1]) % 12) for l, st in want_for(kx)]:
+                    if n_ != exp[-1]:
+                        exp.append(n_)
+            got = chord_formula(it_, paths[0].value, Ly if text != "C|NC" else "C", Lin.of(NAT[Ly if text != "C|NC" else "C"]))
+            if got != exp:
+                ok, why = False, "gives (letters, semitones above %s) %s, expected %s (the right-hand chord, then the left-hand chord with its bass)" % (Ly, got, exp)
+        ctx.check(ok, R, "combination[%s]" % text, fi.where(), "from_shorthand(%r)" % text, why)
     # slash exemption list == keys containing '/'
     with_slash = sorted(k for k in known if "/" in k)
     for k in with_slash:
